@@ -215,7 +215,8 @@ Definition libs_plain (g : glyph) : bool :=
   pv_plain (PDict (glib g)) &&
   forallb (fun a => olib_plain (alib a)) (ganchors g) &&
   forallb (fun x => olib_plain (gulib x)) (gguides g) &&
-  forallb (fun c => olib_plain (clib c) && forallb (fun p => olib_plain (plib p)) (cpoints c)) (gcontours g) &&
+  forallb (fun c => olib_plain (clib c) && forallb (fun p => olib_plain (plib p)) (cpoints c))
+          (filter has_points (gcontours g)) &&
   forallb (fun c => olib_plain (colib c)) (gcomps g).
 Definition note_survives (n : option str) : bool :=
   match n with
